@@ -292,11 +292,17 @@ def c10_product(cfg):
         return tabs
 
     tabs = tables()
+    herm_flag = bool(cfg.get("hermitian_product"))
+    if herm_flag:
+        # X^dagger X with X = 1 + X' and hermitian=True: the shortcut branch of product_by_order (term + Dagger(term))
+        assert nf == 2
+        X = tabs[1]
+        tabs[0] = {(j, i, o): (v if (v is one or v is zero) else symc.dagger(v)) for (i, j, o), v in X.items()}
     snap = [(t, k, id(v), None if v is one or v is zero else [id(x) for x in v.flat] + [x.re.get_id() for x in v.flat]) for t, tab in enumerate(tabs) for k, v in tab.items()]
 
     def fresh_product():
         series = [BlockSeries(data=dict(tab), shape=(nb, nb), n_infinite=1, name=f"F{t}") for t, tab in enumerate(tabs)]
-        return cauchy_dot_product(*series, hermitian=False), series
+        return cauchy_dot_product(*series, hermitian=herm_flag), series
 
     def dense(v):
         return symc.zeros(1, 1) if v is zero else (symc.eye(1) if v is one else np.asarray(v, dtype=object))
@@ -326,7 +332,7 @@ def c10_product(cfg):
                     break
         if failures:
             break
-    sig = f"history:product:factors={nf}"
+    sig = f"history:product:factors={nf}" + (":hermitian" if herm_flag else "")
     if failures:
         f = failures[0]
         rec.direct_violation(f"product schedule {f['at']}", sig + ":" + f["kind"].replace(" ", "-"), f, reproduced=True)
@@ -867,6 +873,9 @@ def configs_c10(tier, seed):
         for nb in (1, 2):
             out.append(("vf.props.history", "c10_product", dict(product=True, factors=nf, blocks=nb, factor_order=2, max_order=3,
                                                                  sample=20 if tier == "quick" else 200, sample_seed=seed)))
+    for nb in (1, 2):
+        out.append(("vf.props.history", "c10_product", dict(product=True, hermitian_product=True, factors=2, blocks=nb, factor_order=2, max_order=3,
+                                                             sample=20 if tier == "quick" else 200, sample_seed=seed)))
     return out
 
 
